@@ -31,6 +31,20 @@ TRUSTED = ['rapidjson / gzip / pandas / sqlite3 / pickle containers', 'float tex
 ASSUMPTIONS = ['floats compared at 4 ulp of the data scale; discrete parts exactly']
 
 TAGS = [None, 'text', '', 0, 1, 2.5, 0.0, True, False, [1, 'a'], {'k': 1}]
+FALSY = ['', None, 0, False, None, 0.0, [], None, {}]
+
+
+def tag_for(case, i, n):
+    """tag of element i of n: 'cycle' through TAGS, only 'falsy' values (and None), or a 'single' tagged element"""
+    if not case.get('tags'):
+        return None
+    off = case.get('tagoff', 0)
+    mode = case.get('tagmode', 'cycle')
+    if mode == 'falsy':
+        return FALSY[(off + i) % len(FALSY)]
+    if mode == 'single':
+        return TAGS[off % len(TAGS)] if i == off % n else None
+    return TAGS[(off + i) % len(TAGS)]
 
 
 def base(rng, nprng, layout):
@@ -196,14 +210,14 @@ def build(case):
     if k == 'list':
         l = gen_obs_set(rng, nprng, case['n'], cov=cov)
         for i, o in enumerate(l):
-            o.tag = TAGS[(case.get('tagoff', 0) + i) % len(TAGS)] if case.get('tags') else None
+            o.tag = tag_for(case, i, len(l))
             o.reweighted = bool(case.get('rw'))
         return l
     if k == 'array':
         shape = case['shape']
         l = gen_obs_set(rng, nprng, int(np.prod(shape)), cov=cov)
         for i, o in enumerate(l):
-            o.tag = TAGS[(case.get('tagoff', 0) + i) % len(TAGS)] if case.get('tags') else None
+            o.tag = tag_for(case, i, len(l))
         a = np.array(l, dtype=object).reshape(shape)
         if case.get('order') == 'T' and a.ndim >= 2:
             a = a.T
@@ -596,12 +610,12 @@ def gen_case(ctx):
     if k == 'obs':
         case['tag'] = rng.choice(TAGS)
     elif k == 'list':
-        case.update({'n': rng.randint(1, 5), 'tags': rng.random() < 0.5, 'tagoff': rng.randrange(len(TAGS))})
+        case.update({'n': rng.randint(1, 5), 'tags': rng.random() < 0.5, 'tagoff': rng.randrange(len(TAGS)), 'tagmode': rng.choice(['cycle', 'cycle', 'falsy', 'single'])})
         if case['transport'] in ('csv', 'sql'):
             case['n'] = max(2, case['n'])      # a one-element list in a data-frame cell is unpacked on import (documented)
     elif k == 'array':
         case.update({'shape': rng.choice([[2], [3], [2, 2], [2, 3], [3, 2], [1, 4], [2, 2, 2], [2, 3, 2]]), 'tags': rng.random() < 0.4,
-                     'tagoff': rng.randrange(len(TAGS)), 'order': rng.choice(['C', 'C', 'T', 'F', 'swap'])})
+                     'tagmode': rng.choice(['cycle', 'cycle', 'falsy', 'single']), 'tagoff': rng.randrange(len(TAGS)), 'order': rng.choice(['C', 'C', 'T', 'F', 'swap'])})
         if case['transport'] in ('csv', 'sql'):
             case['transport'] = 'string'
     elif k == 'corr':
